@@ -305,7 +305,7 @@ class Unit:
                           'lines': text.count('\n') + 1, 'sha256': sha})
         where = '%s:%s' % (path, item)
         try:
-            rs = self._ruleset(opts.get('rules'))
+            rs = list(getattr(self, 'extra_rules', [])) + self._ruleset(opts.get('rules'))
             if kind == 'fn' and any(r.rid == 'X-SYNCLOOP' for r in rs):
                 # after X-XPAND (paths), before everything that looks inside the loop body
                 k = next(i for i, r in enumerate(rs) if r.rid == 'X-SYNCLOOP')
